@@ -35,7 +35,7 @@ defjvp(
 defjvp(anp.nan_to_num, lambda g, ans, x: anp.where(anp.isfinite(x), g, 0.0))
 
 # ----- Binary ufuncs (linear) -----
-def_linear(anp.multiply)
+defjvp(anp.multiply, "same", "same")
 
 # ----- Binary ufuncs -----
 defjvp(anp.add, lambda g, ans, x, y: broadcast(g, ans), lambda g, ans, x, y: broadcast(g, ans))
@@ -222,10 +222,10 @@ defjvp(anp.amin, fwd_grad_chooser)
 defjvp(anp.cumsum, "same")
 
 def_linear(anp.inner)
-def_linear(anp.matmul)
-def_linear(anp.dot)
+defjvp(anp.matmul, "same", "same")
+defjvp(anp.dot, "same", "same")
 def_linear(anp.tensordot)
-def_linear(anp.outer)
+defjvp(anp.outer, "same", "same")
 
 def_linear(dot_adjoint_0)
 def_linear(dot_adjoint_1)
